@@ -4,7 +4,8 @@ CONSTANTS
   Clients = {"c1", "c2"}
   MaxReq = 2
   Endpoints = {"pause", "continue", "state", "now", "tick", "component", "field", "buffers", "progress"}
-  PauseWaits = FALSE
+  PauseWaits = TRUE
+  HoldCtl = TRUE
   Atomic = FALSE
   Record = FALSE
 INVARIANT TypeOK
@@ -14,4 +15,6 @@ INVARIANT WindowOK
 INVARIANT RunningOK
 INVARIANT InspectUnderFlag
 INVARIANT DispatchLockOK
+INVARIANT InspectionHeld
+INVARIANT NoConcurrentAccessUnderPause
 PROPERTY Termination
